@@ -9,13 +9,14 @@ META = {
         note="trusted: Python semantics assumptions A1,A7,A8,A9,A10,A13; z3/cvc5; the opaque str.strip / str.split",
     ),
     "C18": dict(
-        technique="run-time contracts evaluated exhaustively over the finite configuration space (bounded stand-in; no deductive obligations: Mako rendering, importlib and regex compilation are outside the VC subset)",
+        technique="contract-based deductive verification of Registry.match (most specific registered vendor; assumed stable-sort axiom) and find_true_sequences (membership form with a universally quantified ghost variable); run-time contracts evaluated exhaustively over the finite configuration space as bounded stand-in for the rest (Mako rendering, importlib and regex compilation are outside the VC subset)",
         text="exploration, exhaustive over the finite space: for every devdb sequence (model string synthesised per regex chain) x software-version "
              "shapes x every vendor's canonical hardware: true sequences prefix-closed, vendor = unique most specific one under 28 registration "
              "orders, get_rulebook renders/compiles/resolves every %logic function, two fresh providers give structurally equal rulebooks. "
              "Registry.match is also asked during registration and after __add__. "
-             "Registry.match and find_true_sequences are not under a discharged contract.",
-        note="bounded stand-in only; synthesised model strings are one per sequence; known finding: ambiguous short-name alias SN",
+             "Registry.match (most specific registered vendor, registry unmodified) and find_true_sequences (exactly the sequences of the "
+             "nodes whose whole regex chain matches) are proved; the text above describes the bounded layer.",
+        note="_make_allowed_by_seq / _build_tree / HardwareLeaf / rulebook loading bounded only; synthesised model strings are one per sequence; known finding: ambiguous short-name alias SN",
     ),
 }
 
